@@ -9,6 +9,14 @@ ENGINES = [
         "deviation-bounded exhaustive DFS over environment choices (segment delivery, timers, EOF/RST, cancel), "
         "replay of choice prefixes on fresh objects",
     },
+    {
+        "name": "enum",
+        "path": "vf/engine/runner.py vf/ref/",
+        "serves_properties": ["C01", "C02", "C03", "C15"],
+        "kind_free_text": "bounded-exhaustive enumerator for sequential code: Cartesian products of boundary alphabets, exhaustive short "
+        "byte spaces, mutation neighbourhoods and complete fault/lifecycle products, every case run on the real code and compared with an "
+        "independent reference (ISO 14229-1 layout table vf/ref/iso14229.py, lifecycle model vf/ref/c15_model.py); 16-way process pool",
+    },
 ]
 
 CHECKS = [
@@ -84,6 +92,56 @@ CHECKS = [
         "close() never raises.",
         "note": "Trusted: the stream loss model (eof_received / connection_lost(ConnectionResetError) / silence) and vloop. A read without caller timeout on "
         "a merely silent peer is allowed to wait. Recovery is only demanded when the peer's answer on the new connection reached the client in time.",
+    },    {
+        "id": "C01",
+        "engine": "enum",
+        "level": "exploration",
+        "technique": "bounded-exhaustive differential codec check: every request class and client method x full product of per-field boundary alphabets, against an independent ISO 14229-1 layout table",
+        "text": "Every concrete UDSRequest class (41, by introspection) and every UDSClient service method (38, driven on a recording transport) over the "
+        "full Cartesian product of per-field boundary alphabets (u8/u16/u24 boundaries, both suppress settings, address/size widths {1,2,4,15} quick "
+        "/ 1..15 thorough, explicit and computed format identifier, 0..3(4) repeated groups, records of 0/1/2/300 bytes, one-parameter-out-of-range "
+        "cases). Clauses: pdu equals the reference bytes; from_pdu round trip of class, attributes and bytes; parse_dynamic never degrades to Raw; "
+        "out-of-range input is refused; client wire bytes equal the reference encoding of the caller's arguments. 33 k evaluations quick, 0.8 M thorough.",
+        "note": "Trusted: vf/ref/iso14229.py (table, self-tested against 43 worked ISO examples). ABC base classes skipped. A failure in from_pdu/"
+        "parse_dynamic/client that merely follows a failing pdu is counted as a consequence of it.",
+    },
+    {
+        "id": "C02",
+        "engine": "enum",
+        "level": "exploration",
+        "technique": "exhaustive short byte space + generated valid responses + mutation neighbourhood through the real response parser, against the table-derived decoder and acceptance predicate",
+        "text": "All byte strings of length 1..3 for the 22 response first bytes (thorough; quick: third byte from 16 values), all table-valid responses of every "
+        "service, all 256 NRC for every SID, prefixes / extensions / bit flips of valid responses, typed construction of every response class. Oracle: "
+        "typed implies pdu == input and every exposed field equals the value the ISO layout places there; table rejects implies not typed; the hex "
+        "stored by the real DBHandler.insert_scan_result equals the input. 0.12 M parses quick, 1.4 M thorough.",
+        "note": "Trusted: vf/ref/iso14229.py. A parser exception or Raw* counts as rejection. Reserved encodings are not required either way. sqlite is "
+        "not exercised here (capturing queue); C11 covers the database.",
+    },
+    {
+        "id": "C03",
+        "engine": "enum",
+        "level": "exploration",
+        "technique": "bounded-exhaustive request/reply pairing through helpers.parse_pdu against a statement-derived reference classifier that works on bytes only",
+        "text": "Requests of every kind (typed and raw, plus unknown and unparsable raw requests) x replies {genuine, every bit flip of bytes 1..8, prefixes, "
+        "extensions, a reply of every other service, 7F x same/other/unknown SID x 64 (quick) / all 256 (thorough) NRC bytes, negative replies of "
+        "length 1,2,4,5}: 0.4 M pairs quick, 1.07 M thorough, classified ACCEPT / MISMATCH / MALFORMED. Plus direct matches() of every typed response "
+        "and totality + class-correctness of the NRC-to-exception map over UDSErrorCodes.",
+        "note": "Trusted: vf/ref/iso14229.py echo relation. Points the statement leaves open are admitted as sets (secondary echo differs, undecodable with "
+        "differing echo, reserved encodings). UDSClient.request() itself is covered by C04.",
+    },
+    {
+        "id": "C15",
+        "engine": "enum",
+        "level": "fault_enumeration",
+        "technique": "exhaustive crash-point enumeration of the real entry_point() in forked processes on the real event loop (exit kind x lifecycle point x resources x hook variant), with a reference exit-code/record model and a differential failing-hook comparison",
+        "text": "Every combination of {plain AsyncScript, Scanner, UDSScanner on an in-memory ECU} x exit kind {return, sys.exit(0|1|3|'text'), ConnectionError, "
+        "UDSException, RuntimeError, real SIGINT, db fault} x lifecycle point {pre-hook, db-open, setup before/after base step, main, teardown "
+        "before/after base step, db-close, post-hook} x {artifacts, db, lock} on/off x hook variant {disabled, ok, pre fails, post fails(, both)} is run "
+        "for real (3760 runs quick, 5232 thorough incl. double faults, Rerunner round trips and fresh-interpreter conformance). Checked against the "
+        "documented mapping 0/n/74/70/130: process status, META.json (code, times, config round trip), run_meta row, complete decodability and exact "
+        "record sequence of log.json.zst, flock release, hook environment, and 'a failing hook changes nothing'.",
+        "note": "Trusted: CPython's exit rules for asyncio.run (conformance-tested in thorough), in-memory transport/fake ECU, tracing DBHandler subclass. "
+        "Not covered: lock contention, dumpcap, power supply, Windows, signals other than SIGINT, more than two faults per run.",
     },
 ]
 
